@@ -360,6 +360,34 @@ func randStr(r *kit.Rng, maxLen int, commas bool) string {
 	return b.String()
 }
 
+const idChars = "0123456789abcdefghijklmnopqrstuvwxyzABCDEF-_."
+
+// plainID returns a comma-free instance id of exactly n bytes.
+func plainID(r *kit.Rng, n int) string {
+	b := make([]byte, n)
+	for i := range b {
+		b[i] = idChars[r.Intn(len(idChars))]
+	}
+	return string(b)
+}
+
+// idLen picks an id length in 1..40; 8 (what main.go generates today), 7, 9 and long ids are all common.
+func idLen(r *kit.Rng) int {
+	switch r.Pick(25, 10, 15, 10, 10, 30) {
+	case 0:
+		return 8
+	case 1:
+		return 7
+	case 2:
+		return 9
+	case 3:
+		return 16
+	case 4:
+		return 36 // a UUID's length
+	}
+	return 1 + r.Intn(40)
+}
+
 func genCodec(r *kit.Rng, maxLen int) kit.Case {
 	n := 8 + r.Intn(maxLen/2+1)
 	var ops []string
@@ -367,12 +395,12 @@ func genCodec(r *kit.Rng, maxLen int) kit.Case {
 		switch r.Pick(30, 20, 8, 42) {
 		case 0: // realistic command
 			addr := fmt.Sprintf("http://%s:%d", []string{"refinery-1", "10.0.0.7", "[fe80::1]", "host.example.com"}[r.Intn(4)], 8081+r.Intn(3))
-			id := fmt.Sprintf("%08x", r.Next()&0xffffffff)
+			id := plainID(r, idLen(r))
 			ops = append(ops, fmt.Sprintf("enc %s %s %s", []string{"R", "U"}[r.Intn(2)], kit.Enc(addr), kit.Enc(id)))
 		case 1: // arbitrary strings, id without a comma (the address may have any)
-			ops = append(ops, fmt.Sprintf("enc %s %s %s", []string{"R", "U"}[r.Intn(2)], kit.Enc(randStr(r, 8, true)), kit.Enc(randStr(r, 8, false))))
+			ops = append(ops, fmt.Sprintf("enc %s %s %s", []string{"R", "U"}[r.Intn(2)], kit.Enc(randStr(r, 8, true)), kit.Enc(randStr(r, []int{3, 8, 9, 20, 40}[r.Intn(5)], false))))
 		case 2: // arbitrary strings, commas anywhere
-			ops = append(ops, fmt.Sprintf("enc %s %s %s", []string{"R", "U"}[r.Intn(2)], kit.Enc(randStr(r, 8, true)), kit.Enc(randStr(r, 8, true))))
+			ops = append(ops, fmt.Sprintf("enc %s %s %s", []string{"R", "U"}[r.Intn(2)], kit.Enc(randStr(r, 8, true)), kit.Enc(randStr(r, []int{8, 20}[r.Intn(2)], true))))
 		case 3: // arbitrary wire strings: short, no comma, leading comma, unknown action, old format
 			var m string
 			switch r.Intn(6) {
@@ -433,8 +461,16 @@ func (comp) Gen(r *kit.Rng, maxLen int, tier string) kit.Case {
 	comma := r.Chance(8)   // one node whose configured identifier contains a comma
 	var hdr []string
 	ids := map[string]bool{}
+	sharedPrefix := r.Chance(33)
 	for i := 0; i < total; i++ {
-		id := fmt.Sprintf("%08x", r.Next()&0xffffffff)
+		// instance ids of every length 1..40; in a third of the cases all ids share their first 8 bytes
+		id := plainID(r, idLen(r))
+		if sharedPrefix {
+			id = "refinery" + plainID(r, r.Intn(12))
+			if i == 0 && r.Chance(50) {
+				id = "refinery"
+			}
+		}
 		if !fair && r.Chance(10) {
 			id = []string{"", "a,b", "R", "0"}[r.Intn(4)]
 		}
